@@ -44,4 +44,26 @@ theorem rintPos_nearest (x : Rat) : (rintPos x : Rat) - 1/2 ≤ x ∧ x < (rintP
   · rename_i h
     constructor <;> grind
 
+/-- exactly on a tie `k + 1/2`: `rint` goes away from zero -/
+theorem rint_tie (k : Int) : rintPos ((k : Rat) + 1/2) = k + 1 := by
+  have h := rintPos_nearest ((k : Rat) + 1/2)
+  obtain ⟨h1, h2⟩ := h
+  have a : ((rintPos ((k : Rat) + 1/2) : Int) : Rat) ≤ ((k + 1 : Int) : Rat) := by push_cast; grind
+  have b : ((k : Int) : Rat) < ((rintPos ((k : Rat) + 1/2) : Int) : Rat) := by grind
+  have a' := Rat.intCast_le_intCast.1 a
+  have b' := Rat.intCast_lt_intCast.1 b
+  omega
+theorem round_tie (k : Int) : roundHalfEven ((k : Rat) + 1/2) % 2 = 0 ∧
+    (roundHalfEven ((k : Rat) + 1/2) = k ∨ roundHalfEven ((k : Rat) + 1/2) = k + 1) := by
+  obtain ⟨h1, h2, h3⟩ := roundHalfEven_nearest ((k : Rat) + 1/2)
+  have a : ((roundHalfEven ((k : Rat) + 1/2) : Int) : Rat) ≤ ((k + 1 : Int) : Rat) := by push_cast; grind
+  have b : ((k : Int) : Rat) ≤ ((roundHalfEven ((k : Rat) + 1/2) : Int) : Rat) := by grind
+  have a' := Rat.intCast_le_intCast.1 a
+  have b' := Rat.intCast_le_intCast.1 b
+  have c : roundHalfEven ((k : Rat) + 1/2) = k ∨ roundHalfEven ((k : Rat) + 1/2) = k + 1 := by omega
+  refine ⟨h3 ?_, c⟩
+  rcases c with c | c
+  · left; rw [c]
+  · right; rw [c]; push_cast; grind
+
 end ALV.C03
